@@ -997,6 +997,151 @@ Proof.
     repeat match type of E with (if ?c then _ else _) = _ => destruct c end; try discriminate; injection E as <- <- <-; apply EXPR; exact Q.
 Qed.
 
+(* scanOptions reads nothing from a character that is no option letter *)
+Lemma no_option_char ob ch p5 : (ch =? 45) = false -> (ch =? 43) = false -> option_from_code ch = 0 ->
+  scan_options_text ob (ch :: p5) = (ob, ch :: p5).
+Proof.
+  intros H1 H2 H3. unfold scan_options_text. cbn [ochars_of]. rewrite H1, H2, H3. reflexivity.
+Qed.
+
+Lemma pyname_open p5 : useRE2 (cs_o cs) = true -> longer p5 2 = true -> hd_is p5 60 = true ->
+  prescan_open mco cs (40 :: 63 :: 80 :: p5) (63 :: 80 :: p5) = prescan_pyname is_word_char mco st1 (tl p5).
+Proof.
+  intros RE L2 H60. unfold Parser.prescan_open.
+  change (starts_qhash (63 :: 80 :: p5)) with false. cbv iota.
+  change (hd_is (63 :: 80 :: p5) 63) with true. cbv iota. cbn [tl].
+  change (hd_is (80 :: p5) 60) with false. change (hd_is (80 :: p5) 39) with false. cbn [orb]. rewrite andb_false_r.
+  change (hd_is (80 :: p5) 80) with true. change (nth_is 1 (80 :: p5) 60) with (hd_is p5 60).
+  cbn [cs_o]. rewrite RE, H60, !andb_true_r, andb_true_l.
+  assert (L : longer (80 :: p5) 2 = true) by (unfold longer in *; cbn [length]; apply Nat.ltb_lt in L2; apply Nat.ltb_lt; lia).
+  rewrite L. destruct p5; reflexivity.
+Qed.
+
+Lemma open_sim gt ign p3 g v' q' :
+  cs_ign cs = ign -> reach cs (40 :: p3) -> starts_qhash p3 = false ->
+  Parser.group_open is_word_char tbm mco gt (mkGV o ign a) p3 = POk (g, v', q') ->
+  (hd_is p3 63 = true /\ nth_is 1 p3 41 = true /\ q' = p3 /\ g <> None) \/ open_post cs o ign a p3 g v' q'.
+Proof.
+  intros Hign HR Hq E. unfold Parser.group_open in E. cbn [gv_o gv_ign gv_autocap] in E.
+  pose proof (oeqv_useN _ _ Ho) as HN.
+  destruct (is_nil p3 || negb (hd_is p3 63) || nth_is 1 p3 41) eqn:E0.
+  { destruct (hd_is p3 63) eqn:H63.
+    - left. assert (N1 : nth_is 1 p3 41 = true).
+      { destruct p3; [discriminate|]. cbn [is_nil negb orb] in E0. exact E0. }
+      split; [reflexivity|]. split; [exact N1|]. destruct (useN o || ign); injection E as <- <- <-; split; try reflexivity; discriminate.
+    - right.
+      assert (PO : prescan_open mco cs (40 :: p3) p3 =
+                   POk (if negb (useN (cs_o cs)) && negb (cs_ign cs)
+                        then set_cs_ign (set_cs_c st1 (note_auto (cs_c cs))) false else set_cs_ign st1 false, p3)).
+      { unfold Parser.prescan_open. rewrite Hq, H63. cbn [cs_o cs_ign]. destruct (negb (useN (cs_o cs)) && negb (cs_ign cs)); reflexivity. }
+      rewrite <- HN, Hign in PO.
+      destruct (useN o || ign) eqn:EN.
+      + injection E as <- <- <-.
+        assert (C : negb (useN o) && negb ign = false) by (destruct (useN o), ign; try discriminate; reflexivity). rewrite C in PO.
+        eapply open_post_one; [exact PO | apply near_refl | exact Ho | reflexivity | exact Ha | reflexivity | intros H; discriminate | intros _ H; congruence].
+      + injection E as <- <- <-.
+        assert (C : negb (useN o) && negb ign = true) by (destruct (useN o), ign; try discriminate; reflexivity). rewrite C in PO.
+        destruct (note_auto_autocap (cs_c cs)) as [NA1 NA2].
+        eapply open_post_one; [exact PO | apply near_refl | exact Ho | | | reflexivity | | ].
+        * cbn [set_cs_ign set_cs_c cs_ign gv_ign]. destruct (useN o), ign; try discriminate; reflexivity.
+        * cbn [set_cs_ign set_cs_c cs_c gv_autocap]. rewrite NA1, Ha. reflexivity.
+        * cbn [gv_ign]. intros H. destruct (useN o), ign; discriminate.
+        * intros _ _. cbn [set_cs_ign set_cs_c cs_c]. rewrite <- Ha. exact NA2. }
+  right.
+  assert (H63 : hd_is p3 63 = true) by (destruct (hd_is p3 63); [reflexivity | rewrite orb_true_r in E0; discriminate]).
+  destruct p3 as [|c0 p4]; [discriminate|]. cbn [hd_is] in H63. assert (c0 = 63) by lia. subst c0. cbn [tl] in E.
+  destruct p4 as [|ch p5]; [discriminate|].
+  assert (N41 : (ch =? 41) = false) by (cbn in E0; destruct (ch =? 41); [discriminate | reflexivity]).
+  (* the pre-scan on "(?" + a character that starts neither a name nor (under RE2) "P<" : the options branch *)
+  assert (OPTS : (ch =? 60) = false -> (ch =? 39) = false -> (useRE2 (cs_o cs) && (ch =? 80)) = false ->
+            prescan_open mco cs (40 :: 63 :: ch :: p5) (63 :: ch :: p5) =
+            (let '(o2, q) := scan_options_text (cs_o cs) (ch :: p5) in
+             if hd_is q 41 then POk (mkCS (cs_c cs) o2 (cs_os cs) false, tl q)
+             else if hd_is q 40 then POk (mkCS (cs_c cs) o2 (cs_o cs :: cs_os cs) true, q)
+             else POk (mkCS (cs_c cs) o2 (cs_o cs :: cs_os cs) false, q))).
+  { intros A1 A2 A3. unfold Parser.prescan_open. rewrite Hq. cbn [hd_is tl Z.eqb Pos.eqb]. rewrite A1, A2. cbn [orb]. rewrite andb_false_r.
+    assert (PY : useRE2 (cs_o cs) && longer (ch :: p5) 2 && (ch =? 80) && nth_is 1 (ch :: p5) 60 = false).
+    { destruct (useRE2 (cs_o cs)); [|reflexivity]. cbn [andb] in A3 |- *. rewrite A3. rewrite andb_false_r. reflexivity. }
+    rewrite PY. destruct (scan_options_text (cs_o cs) (ch :: p5)) as [o2 q]. cbn [cs_c cs_o cs_os cs_ign set_cs_ign].
+    destruct (hd_is q 41); [reflexivity|]. destruct (hd_is q 40); reflexivity. }
+  (* a one-character group opener: ":" "=" "!" ">" *)
+  assert (SIMPLE : forall t o', (ch =? 58) || (ch =? 61) || (ch =? 33) || (ch =? 62) = true -> oeqv o' o ->
+            open_post cs o ign a (63 :: ch :: p5) (Some (mk_node t o')) (mkGV o' false a) p5).
+  { intros t o' C Oo.
+    assert (NO : scan_options_text (cs_o cs) (ch :: p5) = (cs_o cs, ch :: p5)).
+    { apply no_option_char; try lia. unfold option_from_code.
+      repeat match goal with |- context [if ?c then _ else _] => destruct c eqn:? end; try reflexivity; lia. }
+    specialize (OPTS ltac:(lia) ltac:(lia) ltac:(destruct (useRE2 (cs_o cs)); [cbn; lia | reflexivity])).
+    rewrite NO in OPTS. cbn [hd_is] in OPTS. rewrite N41 in OPTS.
+    assert (N40 : (ch =? 40) = false) by lia. rewrite N40 in OPTS.
+    eapply open_post_one; [exact OPTS | | | reflexivity | exact Ha | reflexivity | intros H; discriminate | intros H; discriminate].
+    - left. apply tskip_cons. apply ptriv_intro; intros; lia.
+    - cbn [cs_o gv_o]. eapply oeqv_trans; [exact Oo | exact Ho]. }
+  destruct (ch =? 58) eqn:C58; [injection E as <- <- <-; apply SIMPLE; [lia | apply oeqv_refl]|].
+  destruct (ch =? 61) eqn:C61; [injection E as <- <- <-; apply SIMPLE; [lia | apply oeqv_clear_rtl]|].
+  destruct (ch =? 33) eqn:C33; [injection E as <- <- <-; apply SIMPLE; [lia | apply oeqv_clear_rtl]|].
+  destruct (ch =? 62) eqn:C62; [injection E as <- <- <-; apply SIMPLE; [lia | apply oeqv_refl]|].
+  destruct ((ch =? 39) || (ch =? 60)) eqn:CQ.
+  { (* "(?<" / "(?'" *)
+    destruct p5 as [|c2 p6]; [discriminate|].
+    assert (NAMED : prescan_open mco cs (40 :: 63 :: ch :: c2 :: p6) (63 :: ch :: c2 :: p6) = prescan_named is_word_char mco st1 (c2 :: p6)).
+    { unfold Parser.prescan_open. rewrite Hq. cbn [hd_is tl]. 
+      assert (T : longer (ch :: c2 :: p6) 1 && ((ch =? 60) || (ch =? 39)) = true) by (unfold longer; cbn [length]; cbn; lia). rewrite T. reflexivity. }
+    destruct ((c2 =? 61) || (c2 =? 33)) eqn:CL.
+    - (* lookbehind *)
+      destruct ((if ch =? 39 then 39 else 62) =? 39); [discriminate|]. injection E as <- <- <-.
+      assert (PN : prescan_named is_word_char mco st1 (c2 :: p6) = POk (set_cs_ign st1 false, c2 :: p6)).
+      { unfold Parser.prescan_named. cbn [cs_o]. rewrite HEb'.
+        assert (NW : is_word_char c2 = false).
+        { destruct (is_word_char c2) eqn:Ew; [|reflexivity]. apply HW in Ew. unfold zmem in Ew. cbn [existsb] in Ew. lia. }
+        rewrite NW, andb_false_r. reflexivity. }
+      rewrite PN in NAMED.
+      eapply open_post_one; [exact NAMED | | | reflexivity | exact Ha | reflexivity | intros H; discriminate | intros H; discriminate].
+      + left. apply tskip_cons. apply ptriv_intro; intros; lia.
+      + cbn [cs_o set_cs_ign gv_o]. eapply oeqv_trans; [apply oeqv_set_rtl | exact Ho].
+    - destruct (named_sim (if ch =? 39 then 39 else 62) (c2 :: p6) g v' q') as [[cs1 [q1 [E1 [T [F1 [F2 [F3 [F4 [F5 F6]]]]]]]]] GN].
+      + destruct (ch =? 39); auto.
+      + exact E.
+      + intros cs1 q1 E1. rewrite <- NAMED in E1. apply reach_cons in HR. destruct HR as [st' [qq [ES RR]]].
+        rewrite step40, E1 in ES. inversion ES; subst. exact RR.
+      + rewrite E1 in NAMED.
+        eapply open_post_one; [exact NAMED | left; rewrite F1; exact T | rewrite F1, F4; exact Ho | rewrite F3, F5; reflexivity | exact F6 | | rewrite F5; intros H; discriminate | intros H; discriminate].
+        destruct g; [exact F2 | congruence]. }
+  destruct (ch =? 40) eqn:C40.
+  { assert (ch = 40) by lia. subst ch. eapply cond_sim; [exact Hign | exact E]. }
+  destruct ((ch =? 80) && useRE2 o) eqn:CP.
+  { (* "(?P<" under RE2 *)
+    apply andb_prop in CP. destruct CP as [C80 RE]. assert (ch = 80) by lia. subst ch.
+    assert (LH : longer p5 2 = true /\ hd_is p5 60 = true).
+    { pose proof E as E'. unfold Parser.group_pyname in E'. destruct (longer p5 2); [|discriminate]. destruct (hd_is p5 60); [auto | discriminate]. }
+    destruct LH as [L2 H60].
+    destruct (pyname_sim p5 g v' q' E) as [_ [_ [[cs1 [q1 [E1 [T [F1 [F2 [F3 [F4 [F5 F6]]]]]]]]] GN]]].
+    - intros cs1 q1 E1. apply reach_cons in HR. destruct HR as [st' [qq [ES RR]]].
+      rewrite step40, (pyname_open p5 ltac:(rewrite <- (oeqv_useRE2 _ _ Ho); exact RE) L2 H60), E1 in ES. inversion ES; subst. exact RR.
+    - assert (PO : prescan_open mco cs (40 :: 63 :: 80 :: p5) (63 :: 80 :: p5) = POk (cs1, q1)).
+      { rewrite (pyname_open p5 ltac:(rewrite <- (oeqv_useRE2 _ _ Ho); exact RE) L2 H60). exact E1. }
+      eapply open_post_one; [exact PO | left; rewrite F1; exact T | rewrite F1, F4; exact Ho | rewrite F3, F5; reflexivity | exact F6 | | rewrite F5; intros H; discriminate | intros H; discriminate].
+      destruct g; [exact F2 | congruence]. }
+  (* inline options *)
+  assert (A3 : useRE2 (cs_o cs) && (ch =? 80) = false).
+  { rewrite <- (oeqv_useRE2 _ _ Ho). destruct (ch =? 80); [cbn in CP; rewrite CP; reflexivity | apply andb_false_r]. }
+  specialize (OPTS ltac:(lia) ltac:(lia) A3).
+  destruct (gt =? T_ExprCond) eqn:GT.
+  { (* no options directly inside a conditional *)
+    destruct (ch =? 41); [discriminate|]. rewrite C58 in E. discriminate. }
+  destruct (scan_options_text_oeqv o (cs_o cs) (ch :: p5) Ho) as [SO1 SO2].
+  destruct (scan_options_text o (ch :: p5)) as [o2 q] eqn:EO. destruct (scan_options_text (cs_o cs) (ch :: p5)) as [b2 qb] eqn:EB.
+  cbn [fst snd] in SO1, SO2. subst qb.
+  destruct q as [|c q1]; [discriminate|]. cbn [hd_is tl] in OPTS.
+  destruct (c =? 41) eqn:D41.
+  - injection E as <- <- <-.
+    eapply open_post_one; [exact OPTS | apply near_refl | exact SO1 | reflexivity | exact Ha | reflexivity | intros H; discriminate | intros H; discriminate].
+  - destruct (c =? 58) eqn:D58; [|discriminate]. injection E as <- <- <-.
+    assert (D40 : (c =? 40) = false) by lia. rewrite D40 in OPTS.
+    eapply open_post_one; [exact OPTS | | exact SO1 | reflexivity | exact Ha | reflexivity | intros H; discriminate | intros H; discriminate].
+    left. apply tskip_cons. apply ptriv_intro; intros; lia.
+Qed.
+
 End OpenSim.
 
 End Agree.
